@@ -1,7 +1,7 @@
 (* Properties_C14.v — Array has value semantics: contents, copies and element lifetimes are
    exact. Only statements, each closed by [exact <lemma of ArrayProofs>], and Print Assumptions. *)
 From Coq Require Import List ZArith Bool Lia Permutation.
-From Tulz Require Import Common RingModel RingInv ArrayModel ArrayInv ArrayProofs.
+From Tulz Require Import Common RingModel RingInv ArrayModel ArrayInv ArrayProofs ArrayAliasProofs.
 Import ListNotations.
 Local Open Scope Z_scope.
 
@@ -50,6 +50,24 @@ Theorem C14_upstream_ptr_ctor_refuted :
   exists ops, existsb (fun e => negb (ev_ok e)) (a_all_events (arr_trace aupstream true aenv0 ops)) = true.
 Proof. exact upstream_ptr_ctor_refuted. Qed.
 Print Assumptions C14_upstream_ptr_ctor_refuted.
+
+(* resize(n, a[i]) — the fill value refers to an element of the array itself. The tree's code performs exactly
+   the ordinary resize (covered by the theorems above) with the value that element holds, around one construction
+   and one destruction of a copy of it; the correspondence run exercises these calls on the real template. *)
+Theorem C14_alias_resize : forall cls a n i a' evs,
+  resize_fill_alias true cls a n i = Some (a', evs) ->
+  exists v u, read a i = Some (Live v, u) /\ 0 <= n /\
+    a' = fst (resize_fill cls a n v) /\
+    evs = (if cls then [ECtor v] else []) ++ snd (resize_fill cls a n v) ++ (if cls then [EDtor (Live v)] else []).
+Proof. exact alias_guarded_spec. Qed.
+Print Assumptions C14_alias_resize.
+
+(* The pinned upstream resize(size, value) used the reference after destroy()/realloc() had invalidated it
+   whenever the array grew (D11): kernel-checked witness, replayed on the implementation (corpus/C14). *)
+Theorem C14_upstream_alias_refuted :
+  exists a n i a' evs, resize_fill_alias false true a n i = Some (a', evs) /\ In EUb evs.
+Proof. exact upstream_alias_refuted. Qed.
+Print Assumptions C14_upstream_alias_refuted.
 
 Example C14_nonvacuous :
   map view_arr (arr_trace afixed true aenv0 [[3;0;7;8;9];[4;1;0];[11;1;0;5];[9;0;1];[10;0;3;4];[12;0];[12;1]])
